@@ -10,9 +10,9 @@ LEVEL_TEXT = ("Every generated run's stream is checked by an automaton: RUNNING/
 LEVEL_NOTE = "Trusted: the stream consumer (real handler.stream_events), virtual clock. 'Unless the run ends first' = the handler finished."
 DESIGN_REF = "§5 C35"
 RULE = "case = generated program (fan / wait / hitl_ret / outcomes) + schedule; distinct = tick-order signature hash; non-trivial = a PREPARING was seen or an InputRequiredEvent returned"
-REQUIRED_REACH = ["ssc_event", "preparing_seen", "input_required_returned", "family_fan", "family_hitl_ret", "family_collect"]
+REQUIRED_REACH = ["ssc_event", "preparing_seen", "input_required_returned", "family_fan", "family_hitl_ret", "family_collect", "family_syncfan"]
 ASSUMPTIONS = []
-FAMILIES = [("fan", 3), ("wait", 1), ("hitl_ret", 2), ("outcomes", 1), ("collect", 2)]
+FAMILIES = [("fan", 3), ("wait", 1), ("hitl_ret", 2), ("outcomes", 1), ("collect", 2), ("syncfan", 1)]
 
 
 def plan(tier, seed):
